@@ -1,6 +1,7 @@
 import Lean.Data.Json
 import MetapypeModel.Model.Lex
 import MetapypeModel.Model.Validate
+import MetapypeModel.Model.Lang
 import MetapypeModel.Model.Equal
 import MetapypeModel.Model.Forest
 import MetapypeModel.Model.Query
@@ -47,6 +48,40 @@ partial def getTree (j : Json) : Tree :=
       .mk ((optStr i).getD "") ((optStr n).getD "") (optStr c) (optStr t) (optStr p)
           (getDict a) (getDict e) (getDict ns) (kids.toList.map getTree)
   | _ => .mk "" "?" none none none [] [] [] []
+
+/-- a children spec in the JSON shape of rules.json, through the modality detection of rule.py:814-845
+    (rule child: first element a string; sequence: last element a list; choice: first a list and [-2] an int) -/
+partial def specOfJson (j : Json) (top : Bool := true) : Option Spec :=
+  match j with
+  | .arr a =>
+    if a.size == 0 then (if top then some (.seq []) else none)
+    else match a[0]! with
+      | .str n =>
+          (match a[1]?, a[2]? with
+           | some (Json.num mn), some mx =>
+               let mxo : Option (Option Nat) := match mx with
+                 | .null => some none
+                 | .num m => some (some m.mantissa.toNat)
+                 | _ => none
+               mxo.map (fun m => .leaf n mn.mantissa.toNat m)
+           | _, _ => none)
+      | _ =>
+        match a[a.size - 1]! with
+        | .arr _ => (a.toList.mapM (specOfJson · false)).map .seq
+        | _ =>
+          if a.size ≥ 3 then
+            match a[0]!, a[a.size - 2]!, a[a.size - 1]! with
+            | .arr _, .num mn, mx =>
+                let mxo : Option (Option Nat) := match mx with
+                  | .null => some none
+                  | .num m => some (some m.mantissa.toNat)
+                  | _ => none
+                match mxo, ((a.toList.take (a.size - 2)).mapM (specOfJson · false)) with
+                | some m, some alts => some (.choice alts mn.mantissa.toNat m)
+                | _, _ => none
+            | _, _, _ => none
+          else none
+  | _ => none
 
 def evJson : Ev → Json
   | .err k => .str k.toString
@@ -194,6 +229,18 @@ def handle (j : Json) : Json :=
         Json.mkObj [("required", match isRequiredAttribute r.attrs a with | some b => .bool b | none => .str "Exception"),
                     ("values", match allowedAttributeValues r.attrs a with
                                | some vs => .arr (vs.map Json.str).toArray | none => .str "Exception")]
+  | some "synth" =>
+      -- a rule that is not in the table: children spec given in the rules.json shape
+      match specOfJson (fld j "spec") with
+      | none => .str "crash:ValueError"
+      | some sp =>
+        let mixed := (fld j "mixed") == .bool true
+        let kids := getStrs (fld j "kids")
+        let evs := validateChildren ((optStr (fld j "name")).getD "") mixed sp kids
+        let cands := getStrs (fld j "cands")
+        Json.mkObj [("wf", .bool (wfTop sp)), ("evs", .arr (evs.map evJson).toArray), ("names", .arr (sp.names.map Json.str).toArray),
+                    ("insert", .arr (cands.map (fun c => Json.mkObj [("index", insJson (childInsertIndex sp kids c)),
+                                                                      ("allowed", .bool (isAllowedChild sp c))])).toArray)]
   | some "insert" =>
       let rn := (optStr (fld j "rule")).getD ""
       match T.rules.find? (·.name == rn) with
